@@ -872,6 +872,13 @@ func runPkg(repo, work string, r *vl.Rng, n int, out *vl.Out) error {
 			want := fmt.Sprintf("ok %s %d w:ok %s", hexOrDash(fields), rest, hexOrDash(fields))
 			if ans != want {
 				op, obs := lines[i], ans
+				if c.implOnly {
+					// a 64 KB key helps nobody: the stream is one field 9 holding n one-byte zero elements
+					out.Fail(vl.OracleFail{Key: "tie (a) " + c.class + ": field 9 = container of n zero bytes (pkg.go hugeCases)",
+						What:  "tie (a): Append+Write of a huge well-formed unknown container does not reproduce it byte for byte",
+						Input: map[string]string{"class": c.class, "op": fmt.Sprintf("%.60s… (%d hex digits)", lines[i], len(lines[i])-3)}, Expected: fmt.Sprintf("%.80s…", want), Observed: fmt.Sprintf("%.80s… w:%.40s", ans, ans[strings.Index(ans, "w:")+2:])})
+					continue
+				}
 				if shrunk < 5 {
 					shrunk++
 					if sm := shrinkUA(bin, c.stream); len(sm) < len(c.stream) {
